@@ -120,9 +120,13 @@ def oracle_families(r, binp, n):
         if fam == "conflict":
             j = r.randrange(len(types))
             other = r.choice([t for t in scalar_types + ["STRING"] if t != types[j]])
-            i = emit("fadd 0 a%d %s 0 -" % (j, other))
-            checks.append((i, "err:typemismatch", "type-conflict-accepted", "asking for an existing name with another type is not an error"))
-            i = emit("fadd 0 a%d %s 0 -" % (j, types[j]))
+            # through the format (fadd) or through a record of that format (dadd: Data::addAttribute, the path modules use)
+            via = "fadd" if (k // 11) % 2 == 0 else "dadd"
+            if via == "dadd":
+                emit("new 0")
+            i = emit("%s 0 a%d %s 0 -" % (via, j, other))
+            checks.append((i, "err:typemismatch", "type-conflict-accepted", "asking for an existing name with another type is not an error (%s)" % ("DataFormat::addAttribute" if via == "fadd" else "Data::addAttribute")))
+            i = emit("%s 0 a%d %s %d -" % (via, j, types[j], 1 if pers[j] else 0))
             checks.append((i, ("prefix", "attr a%d %d " % (j, j)), "add-not-idempotent", "asking again for an existing name does not return the same attribute"))
             cases.append((cid, L, checks))
             continue
